@@ -484,7 +484,9 @@ func errCellOf(fn *ssa.Function) *ssa.Alloc {
 }
 
 // pinVersionPredicates pins calls of packets.IsVersion3X / IsVersion5 and comparisons of version loads consistently.
-func pinVersionPredicates(fn *ssa.Function, pins map[ssa.Value]ssax.AV, ver int64) { pinVersionCalls(fn, pins, ver) }
+func pinVersionPredicates(fn *ssa.Function, pins map[ssa.Value]ssax.AV, ver int64) {
+	pinVersionCalls(fn, pins, ver)
+}
 
 func pinVersionCalls(fn *ssa.Function, pins map[ssa.Value]ssax.AV, ver int64) {
 	ssax.Instrs(fn, false, func(_ *ssa.Function, in ssa.Instruction) {
